@@ -50,7 +50,8 @@ def src_files():
 
 # translator tie: which hand-written proof files sit on which generated file (compiled in this order)
 SRC_ORDER = ['GenPrim', 'GenWidthP', 'GenPrimP', 'GenDiv', 'GenDivP', 'GenLoopP', 'GenIterP', 'GenUint', 'GenUintP', 'GenMod', 'GenModP',
-             'GenShift', 'GenShiftP', 'GenMul', 'GenMulP', 'GenInt', 'GenIntP', 'GenDivLimb', 'GenDivLimbP', 'GenBits', 'GenBitsP', 'GenDivCt', 'GenDivCtP', 'GenMonty', 'GenMontyP', 'GenHex', 'GenHexP']
+             'GenShift', 'GenShiftP', 'GenMul', 'GenMulP', 'GenInt', 'GenIntP', 'GenDivLimb', 'GenDivLimbP', 'GenBits', 'GenBitsP', 'GenDivCt', 'GenDivCtP', 'GenMonty', 'GenMontyP', 'GenHex', 'GenHexP',
+             'GenSqrt', 'GenSqrtP', 'GenIntDiv', 'GenIntDivP', 'GenMulMod', 'GenMulModP', 'GenAmm', 'GenAmmP']
 _PRIM = ['GenPrim', 'GenWidthP', 'GenPrimP']
 _UINT = _PRIM + ['GenLoopP', 'GenUint', 'GenUintP']
 SRC_NEEDS = {'C02': _PRIM + ['GenDiv', 'GenDivP', 'GenLoopP', 'GenIterP', 'GenUint', 'GenUintP', 'GenShift', 'GenShiftP', 'GenMul', 'GenMulP',
@@ -59,6 +60,12 @@ SRC_NEEDS = {'C02': _PRIM + ['GenDiv', 'GenDivP', 'GenLoopP', 'GenIterP', 'GenUi
              'C13': _UINT + ['GenInt', 'GenIntP'],
              'C08': _UINT + ['GenIterP', 'GenMod', 'GenModP', 'GenShift', 'GenMul', 'GenMulP', 'GenMonty', 'GenMontyP'],
              'C16': ['GenHex', 'GenHexP']}
+_DIVCT = SRC_NEEDS['C02']
+SRC_NEEDS['C20'] = _DIVCT + ['GenInt', 'GenIntP', 'GenSqrt', 'GenSqrtP']
+SRC_NEEDS['C07'] = _PRIM + ['GenDiv', 'GenDivP', 'GenLoopP', 'GenIterP', 'GenUint', 'GenUintP', 'GenMod', 'GenModP', 'GenShift', 'GenShiftP', 'GenMul', 'GenMulP',
+                     'GenInt', 'GenIntP', 'GenDivLimb', 'GenDivLimbP', 'GenMulMod', 'GenMulModP']
+SRC_NEEDS['C08'] = SRC_NEEDS['C08'] + ['GenAmm', 'GenAmmP']
+SRC_NEEDS['C14'] = _DIVCT + ['GenInt', 'GenIntP', 'GenIntDiv', 'GenIntDivP']
 
 def src_tie(pid):
     """Translator tie (tools/rs2v.py): regenerate coq/Src/Gen*.v from REPO's current source, re-check the hand-written
@@ -80,7 +87,7 @@ def _src_tie_locked(pid, f):
         report = json.load(open(os.path.join(COQ, 'Src', 'rs2v_report.json')))
     except Exception:
         pass
-    failed = ['%s (%s)' % (k, v) for r in report.values() for k, v in r if v != 'ok']
+    failed = ['%s (%s)' % (k, v) for r in report.values() for k, v in r if not v.startswith('ok')]
     problems = []
     if rc != 0:
         problems.append('translator tools/rs2v.py failed:\n' + out[-1500:])
